@@ -206,6 +206,12 @@ func main() {
 			for _, a := range c.Alt {
 				c2 := c
 				c2.Exp = a.Exp
+				if a.Exp != nil && a.Exp.Cls == "fuel" {
+					// the specification with the recorded deviation ran out of fuel: this case cannot be decided
+					sum.Known["undecided:"+a.Key]++
+					explained = true
+					break
+				}
 				if a.Exp != nil && !a.Exp.Open && compareExp(&c2, obs[0]) == "" {
 					sum.Known[a.Key]++
 					if _, ok := sum.KnownIDs[a.Key]; !ok {
